@@ -216,101 +216,101 @@ impl<'a> MarkdownIterator<'a> {
     }
 }
 
+impl<'a> MarkdownIterator<'a> {
+    /// Returns the next line of the document (if any) and keeps count
+    fn next_line(&mut self) -> Option<&'a str> {
+        let line = self.document_lines.next()?;
+        self.line_index += 1;
+        Some(line)
+    }
+}
+
 impl Iterator for MarkdownIterator<'_> {
     type Item = MarkdownToken;
 
     fn next(&mut self) -> Option<Self::Item> {
-        if let Some(line) = self.document_lines.next() {
-            self.line_index += 1;
+        let line = self.next_line()?;
 
-            // found the initial front-matter (=document configuration)?
-            if !self.content_start && line == "---" {
-                let mut line = self.document_lines.next()?;
-                self.line_index += 1;
-                let mut config_content = vec![];
-                while line != "---" {
-                    config_content.push((self.line_index - 1, line.to_string()));
-                    line = self.document_lines.next()?;
-                    self.line_index += 1;
+        // found the initial front-matter (=document configuration)?
+        if !self.content_start && line == "---" {
+            // an unterminated front-matter is read until the end of the document
+            let mut config_content = vec![];
+            while let Some(line) = self.next_line() {
+                if line == "---" {
+                    break;
                 }
-                Some(MarkdownToken::DocumentConfig(config_content))
-
-            // found the start of a code block (possibly a testcase)?
-            } else if let Some((backticks, language, config)) = extract_code_block_start(line) {
-                self.content_start = true;
-
-                // report verbatim code block if this is not a test block
-                if !self.languages.contains(&language) {
-                    // Record the opening line (i.e. the opening backticks)
-                    let starting_line_number = self.line_index - 1;
-                    let mut lines = vec![line.to_string()];
-                    let mut line = self.document_lines.next()?;
-                    self.line_index += 1;
-
-                    // Record all lines until the closing backticks
-                    while !line.starts_with(backticks) {
-                        lines.push(line.to_string());
-                        line = self.document_lines.next()?;
-                        self.line_index += 1;
-                    }
-
-                    // Record the closing backticks
-                    lines.push(line.to_string());
-
-                    // Return the verbatim code block
-                    return Some(MarkdownToken::VerbatimCodeBlock {
-                        starting_line_number,
-                        language: language.into(),
-                        lines,
-                    });
-                }
-
-                // gather optional per-test config
-                let config_lines: Vec<(usize, String)> = if let Some(config) = config
-                    .strip_prefix('{')
-                    .and_then(|s| s.strip_suffix('}'))
-                    .and_then(|s| if s.is_empty() { None } else { Some(s) })
-                {
-                    vec![(self.line_index - 1, config.into())]
-                } else {
-                    vec![]
-                };
-
-                let mut line = self.document_lines.next()?;
-                self.line_index += 1;
-                let mut comment_lines = vec![];
-                while is_comment(line) {
-                    comment_lines.push((self.line_index - 1, line.to_string()));
-                    line = self.document_lines.next()?;
-                    self.line_index += 1;
-                }
-
-                // gather code until then end
-                let mut code_lines = vec![];
-                while !line.starts_with(backticks) {
-                    code_lines.push((self.line_index - 1, line.to_string()));
-                    line = self.document_lines.next()?;
-                    self.line_index += 1;
-                }
-
-                Some(MarkdownToken::TestCodeBlock {
-                    language: language.into(),
-                    config_lines,
-                    comment_lines,
-                    code_lines,
-                })
-
-            // not a code block -> just gather the line
-            } else {
-                // note if any actual content has been collected, because then no
-                // front-matter may follow
-                if !line.trim().is_empty() {
-                    self.content_start = true;
-                }
-                Some(MarkdownToken::Line(self.line_index - 1, line.into()))
+                config_content.push((self.line_index - 1, line.to_string()));
             }
+            Some(MarkdownToken::DocumentConfig(config_content))
+
+        // found the start of a code block (possibly a testcase)?
+        } else if let Some((backticks, language, config)) = extract_code_block_start(line) {
+            self.content_start = true;
+
+            // report verbatim code block if this is not a test block
+            if !self.languages.contains(&language) {
+                // Record the opening line (i.e. the opening backticks)
+                let starting_line_number = self.line_index - 1;
+                let mut lines = vec![line.to_string()];
+
+                // Record all lines until (and including) the closing backticks;
+                // an unterminated block is read until the end of the document
+                while let Some(line) = self.next_line() {
+                    lines.push(line.to_string());
+                    if line.starts_with(backticks) {
+                        break;
+                    }
+                }
+
+                // Return the verbatim code block
+                return Some(MarkdownToken::VerbatimCodeBlock {
+                    starting_line_number,
+                    language: language.into(),
+                    lines,
+                });
+            }
+
+            // gather optional per-test config
+            let config_lines: Vec<(usize, String)> = if let Some(config) = config
+                .strip_prefix('{')
+                .and_then(|s| s.strip_suffix('}'))
+                .and_then(|s| if s.is_empty() { None } else { Some(s) })
+            {
+                vec![(self.line_index - 1, config.into())]
+            } else {
+                vec![]
+            };
+
+            // gather leading comments and then the code until the closing
+            // backticks; an unterminated block is read until the end of the document
+            let mut comment_lines = vec![];
+            let mut code_lines = vec![];
+            while let Some(line) = self.next_line() {
+                if line.starts_with(backticks) {
+                    break;
+                }
+                if code_lines.is_empty() && is_comment(line) {
+                    comment_lines.push((self.line_index - 1, line.to_string()));
+                } else {
+                    code_lines.push((self.line_index - 1, line.to_string()));
+                }
+            }
+
+            Some(MarkdownToken::TestCodeBlock {
+                language: language.into(),
+                config_lines,
+                comment_lines,
+                code_lines,
+            })
+
+        // not a code block -> just gather the line
         } else {
-            None
+            // note if any actual content has been collected, because then no
+            // front-matter may follow
+            if !line.trim().is_empty() {
+                self.content_start = true;
+            }
+            Some(MarkdownToken::Line(self.line_index - 1, line.into()))
         }
     }
 }
